@@ -228,6 +228,34 @@ FloatNear(f, num, den) ==
      THEN BLe(BMul(BAbs(BSub(BMul(BMul(x, BPow2(f.e)), den), num)), BPow2(40)), tol)
      ELSE BLe(BMul(BAbs(BSub(BMul(x, den), BMul(num, BPow2(0 - f.e)))), BPow2(40)), BMul(tol, BPow2(0 - f.e)))
 
+\* ---- addition of two spans, and the elapsed duration --------------------------------------------
+\* position reached by adding sb at position p (a civil datetime / an instant of the zone)
+PAdd(z, ref, p, sb) == IF ref.kind = "z" THEN ZAdd(z, p, sb) ELSE DateTimeAddSpan(p, sb)
+PSettled(z, ref, p, sb) == ref.kind # "z" \/ ZAddSettled(z, p, sb)
+\* a (+) b relative to ref: the span from ref to (ref (+) a) (+) b
+AddGoal(z, ref, sa, sb) ==
+  LET top == Max2(SLargest(sa), SLargest(sb)) IN
+  IF ~KindAllows(ref.kind, top) THEN [st |-> "err"]
+  ELSE IF EffKind(ref, top) \in {"none", "24h"} THEN [st |-> "ns", n |-> BAdd(UniformNs(sa), UniformNs(sb)), top |-> top]
+  ELSE IF ~RSettled(z, ref, sa) THEN [st |-> "skip"]
+  ELSE LET mid == RAdd(z, ref, sa) IN
+       IF mid = <<>> THEN [st |-> "err"]
+       ELSE IF ~PSettled(z, ref, mid, sb) THEN [st |-> "skip"]
+       ELSE LET e == PAdd(z, ref, mid, sb) IN
+            IF e = <<>> THEN [st |-> "err"]
+            ELSE IF ~PosOk(ref, RefPos(ref)) \/ ~PosOk(ref, mid) \/ ~PosOk(ref, e) THEN [st |-> "skip"]
+            ELSE [st |-> "pos", p |-> e, top |-> top]
+
+\* Span::to_duration: the exact time between ref and ref (+) span, as <<seconds, ns>> (truncating)
+DurGoal(z, ref, span) ==
+  IF ~KindAllows(ref.kind, SLargest(span)) THEN [st |-> "err"]
+  ELSE IF EffKind(ref, SLargest(span)) \in {"none", "24h"} THEN [st |-> "ns", n |-> UniformNs(span)]
+  ELSE IF ~RSettled(z, ref, span) THEN [st |-> "skip"]
+  ELSE LET t0 == RAdd(z, ref, span) IN
+       IF t0 = <<>> THEN [st |-> "err"]
+       ELSE IF ~PosOk(ref, RefPos(ref)) \/ ~PosOk(ref, t0) THEN [st |-> "skip"]
+       ELSE [st |-> "ns", n |-> Dist(RefPos(ref), t0)]
+
 \* ---- comparison ------------------------------------------------------------------------------------
 CompareGoal(z, ref, sa, sb) ==
   IF ~KindAllows(ref.kind, SLargest(sa)) \/ ~KindAllows(ref.kind, SLargest(sb)) THEN [st |-> "err"]
